@@ -13,7 +13,7 @@ func init() { register("C45", "other", checkC45) }
 const pkgIdoc = rootModPath + "/pkg/idoc"
 
 func checkC45(c *Ctx, r *Report) {
-	r.Explanation = "Decides structural necessary conditions of the IDoc explode contract inside ExplodeXML: (R1) the element stack is pushed exactly once per StartElement and popped exactly once per EndElement with a non-empty stack; result.Segments has exactly one writer, an append of the closing frame's segment at the end of the list, and every path of the EndElement case that popped a frame passes through it before the next token — one entry per element, in closing order; (R2) each routed list (Items, Partners, Statuses, Dates) has exactly one writer, an append of that same segment, guarded by the membership test of its own set keyed by the segment's name, and reaching it does not depend on the outcome of another set's test (a first-match chain fails this); the set fields are built from the like-named configuration lists; (R3) the only write into a Fields map goes through the frame that is on top of the stack after the pop (the direct parent), with the closing element's name as key and its trimmed text as value, under the guard that this text is non-empty; a frame gets a Fields map only when isRouted, which consults all four sets. R2 exposed the first-match routing repaired by d611875."
+	r.Explanation = "Decides structural necessary conditions of the IDoc explode contract inside ExplodeXML: (R1) the element stack is pushed exactly once per StartElement and popped exactly once per EndElement with a non-empty stack; result.Segments has exactly one writer, an append of the closing frame's segment at the end of the list, and every path of the EndElement case that popped a frame passes through it before the next token — one entry per element, in closing order; (R2) each routed list (Items, Partners, Statuses, Dates) has exactly one writer, an append of that same segment, guarded by the membership test of its own set keyed by the segment's name, and reaching it does not depend on the outcome of another set's test (a first-match chain fails this); the set fields are built from the like-named configuration lists; (R3) the only write into a Fields map goes through the frame that is on top of the stack after the pop (the direct parent), with the closing element's name as key and its trimmed text as value, under the guard that this text is non-empty, and a path from the pop to the Segments append avoids that write only on the edges 'text empty', 'no parent' or 'parent collects no fields'; a frame gets a Fields map only when isRouted, which consults all four sets. R2 exposed the first-match routing repaired by d611875."
 	r.NotCovered = "the XML decoder's tokenisation (Strict=false, HTML auto-close) on input that is not well formed; JSON rendering in ToTopicRecords"
 	m, err := c.Mod("root")
 	if err != nil {
@@ -22,7 +22,7 @@ func checkC45(c *Ctx, r *Report) {
 	}
 	r.rule("C45.R1", "one Segments entry per closed element, appended in closing order; balanced push/pop", 4)
 	r.rule("C45.R2", "independent routing: each list is fed by its own set's membership test only", 9)
-	r.rule("C45.R3", "Fields: direct children with non-empty trimmed text, written through the parent frame", 3)
+	r.rule("C45.R3", "Fields: direct children with non-empty trimmed text, written through the parent frame", 4)
 
 	fn := needFn(m, r, "C45.R1", pkgIdoc, "ExplodeXML")
 	if fn == nil {
@@ -408,6 +408,74 @@ func checkC45(c *Ctx, r *Report) {
 				r.ok("C45.R3", key, m.Pos(mu.Pos()), "")
 			} else {
 				r.viol("C45.R3", key, m.Pos(mu.Pos()), strings.Join(problems, "; "))
+			}
+			// completeness: a direct child is left out of its parent's Fields only because its text is
+			// empty, there is no parent, or the parent collects no fields — nothing else may divert
+			if len(writers["Segments"]) == 1 && writers["Segments"][0].app != nil {
+				segApp := writers["Segments"][0].app
+				var pop *ssa.Slice
+				for _, b := range fn.Blocks {
+					if !endB.Dominates(b) {
+						continue
+					}
+					for _, in := range b.Instrs {
+						if sl, ok := in.(*ssa.Slice); ok && strings.HasSuffix(sl.Type().String(), "segmentFrame") && sl.High != nil {
+							pop = sl
+						}
+					}
+				}
+				allowedSkip := func(from *ssa.BasicBlock, succ int) bool {
+					ifi, ok := from.Instrs[len(from.Instrs)-1].(*ssa.If)
+					if !ok {
+						return false
+					}
+					bo, ok := ifi.Cond.(*ssa.BinOp)
+					if !ok {
+						return false
+					}
+					skipOn := func(trueWhenPresent bool) bool {
+						// the edge on which the condition for recording is false
+						if trueWhenPresent {
+							return succ == 1
+						}
+						return succ == 0
+					}
+					// text test
+					if strip(bo.X) == strip(mu.Value) || strip(bo.Y) == strip(mu.Value) {
+						if cs, ok := constString(bo.Y); ok && cs == "" {
+							return skipOn(bo.Op == token.NEQ)
+						}
+					}
+					// parent exists: len(stack') > 0 / != 0 / == 0
+					if lc, ok := strip(bo.X).(*ssa.Call); ok && calleeName(&lc.Call) == "builtin.len" && pop != nil && strip(lc.Call.Args[0]) == ssa.Value(pop) {
+						if k, ok := constInt(bo.Y); ok && k == 0 {
+							switch bo.Op {
+							case token.GTR, token.NEQ:
+								return skipOn(true)
+							case token.EQL:
+								return skipOn(false)
+							}
+						}
+					}
+					// the parent collects fields: parent.Fields != nil, parent being an element of the popped stack
+					if _, f, base, ok := fieldOf(bo.X); ok && f == "Fields" && isNilConst(bo.Y) {
+						if ia, ok := strip(base).(*ssa.IndexAddr); ok && pop != nil && strip(ia.X) == ssa.Value(pop) {
+							return skipOn(bo.Op == token.NEQ)
+						}
+					}
+					return false
+				}
+				keyC := "a child with non-empty text is left out of its parent's Fields only when there is no parent or the parent collects none"
+				if pop == nil {
+					r.unresolved("C45.R3", keyC, "pop not found")
+				} else if found, _, path := search(SearchSpec{Start: nextLoc(pop),
+					Target:  func(t ssa.Instruction) bool { return t == ssa.Instruction(segApp) },
+					Blocker: func(t ssa.Instruction) bool { return t == ssa.Instruction(mu) },
+					Removed: allowedSkip}); found {
+					r.viol("C45.R3", keyC, m.Pos(mu.Pos()), "the Fields write can be skipped for another reason: "+renderPath(m, path))
+				} else {
+					r.ok("C45.R3", keyC, m.Pos(mu.Pos()), "")
+				}
 			}
 			g := Guard{cl(atomFn("trimmed text != \"\"", func(l Lit) bool {
 				s, ok := constString(l.Y)
